@@ -238,6 +238,11 @@ def check(run):
     run.bounded.append({"what": "filter of a model whose constants are physically tiny (6.674e-11, 3.3e-12): state update and Jacobians, CSE on and off, each entry compared relative to its OWN magnitude", "bound": "1 model x 2 CSE settings", "failures": len(tp), "counted_as_proved": False})
     for p in tp[:1]:
         run.findings.append(Finding("C08.py.native_tiny_constant", "tiny-constant", f"model with constants 6.674e-11 and 3.3e-12: {p}", {"language": "python", "inputs": {"tiny_constant": True, "seed": run.seed}, "model_definition": tsc.describe(), "oracle_verdict": tp[:4]}, True))
+    run.native_runs += 1
+    mp = native_configured_modules(run.seed)
+    run.bounded.append({"what": "model compiled with Config.python_modules naming a user function and overriding a known one, both inside shared sub-expressions: every output, CSE on and off, against the expression with the configured meaning", "bound": "1 model x 2 CSE settings x 3 points", "failures": len(mp), "counted_as_proved": False})
+    for p in mp[:1]:
+        run.findings.append(Finding("C08.py.native_configured_modules", "modules", p, {"language": "python", "inputs": {"configured_modules": True, "seed": run.seed}, "oracle_verdict": mp[:4]}, True))
     run.bounded.append({"what": "compiled python model with nested shared sub-expressions: CSE on vs off vs exact sympy, four calls on the same compiled object (a point, two nearby points, the first point again)", "bound": f"{len(shapes)} programs", "failures": fails, "counted_as_proved": False})
     try:
         from checks import cxx_generated
@@ -245,6 +250,56 @@ def check(run):
         cxx_generated.check_c08(run)
     except ImportError:
         run.notes.append("generated-C++ per-program SSA check not built yet")
+
+
+def native_configured_modules(seed=0):
+    """Config.python_modules away from its default: the user's own function rho (known only through the configured modules) and an
+    OVERRIDE of a known name (sec) sit inside sub-expressions shared between updates, so with CSE on they are compiled as temporaries.
+    Every output, CSE on and off, must be the value of the symbolic expression with the configured meaning of both functions."""
+    import math
+    import warnings
+
+    import numpy as np
+    import sympy
+
+    from replay import shim
+    from replay.native import repo_import
+
+    py = shim.install()
+    ui = repo_import("formak.ui")
+    dt, x, v, w, u = sympy.symbols("dt x v w u")
+    rho = sympy.Function("rho")
+    shared, folded = rho(v * w + 1), sympy.sec(x - w)
+    sm = {x: x + dt * shared * v + folded, v: v - dt * shared * u + 2 * folded, w: w + dt * shared + folded * v}
+    rho_impl = lambda t: 0.5 * t * t + 2.0
+    sec_impl = lambda t: 2.0 / np.cos(t) + 1.0  # deliberately NOT the secant: the configured modules decide what the name means
+    modules = ({"rho": rho_impl, "sec": sec_impl}, "numpy")
+    rng = np.random.default_rng(seed + 31)
+    problems = []
+    with warnings.catch_warnings():
+        warnings.simplefilter("ignore")
+        for cse in (True, False):
+            try:
+                model = ui.Model(dt=dt, state={x, v, w}, control={u}, state_model=dict(sm))
+                m = py.compile(model, config={"python_modules": modules, "common_subexpression_elimination": cse})
+            except Exception as e:
+                problems.append(f"compile with Config.python_modules naming the user's functions (CSE {'on' if cse else 'off'}) raised {type(e).__name__}: {e}")
+                continue
+            for _ in range(3):
+                pt = {k: float(rng.uniform(-1.2, 1.2)) for k in ("x", "v", "w", "u")}
+                try:
+                    out = m.model(0.1, m.State(x=pt["x"], v=pt["v"], w=pt["w"]), m.Control(u=pt["u"]))
+                except Exception as e:
+                    problems.append(f"model() with the configured functions (CSE {'on' if cse else 'off'}) raised {type(e).__name__}: {e}")
+                    break
+                sh, fo = rho_impl(pt["v"] * pt["w"] + 1), sec_impl(pt["x"] - pt["w"])
+                want = {"x": pt["x"] + 0.1 * sh * pt["v"] + fo, "v": pt["v"] - 0.1 * sh * pt["u"] + 2 * fo, "w": pt["w"] + 0.1 * sh + fo * pt["v"]}
+                names = [str(n) for n in m.arglist_state]
+                for i, nm in enumerate(names):
+                    got = float(out.data[i, 0])
+                    if not math.isclose(got, want[nm], rel_tol=1e-9, abs_tol=1e-12):
+                        problems.append(f"CSE {'on' if cse else 'off'}, state {nm} at {pt}: {got!r}, but with the configured rho and sec the expression is {want[nm]!r}")
+    return problems
 
 
 def cxx_ssa_native(shape, seed, container="set"):
@@ -262,6 +317,10 @@ def replay_file(payload):
         from checks import C02
 
         return C02.replay_file(payload)
+    if inp.get("configured_modules"):
+        mp = native_configured_modules(inp.get("seed", 0))
+        print("replay C08 (user-supplied python_modules):", mp[:3] or "every output has the value the configured functions give, CSE on and off")
+        return not mp
     if inp.get("tiny_constant"):
         tp, _ = native_tiny_constant(inp.get("seed", 0))
         print("replay C08 (physically tiny constants):", tp[:3] or "every entry agrees relative to its own magnitude, CSE on and off")
